@@ -17,6 +17,9 @@ package restorer
 //   x overwrite {always, if-changed, if-newer, never} x sparse {off, on}
 //   (+ --delete for the non-empty-directory state, the documented way to
 //   replace it).
+// Every snapshot also holds a twin d/e with the same content as d/f that is
+// visited first and exists intact (older mtime) in the target in every case:
+// the restorer reads and verifies it before it gets to d/f.
 // The snapshots are built directly in an in-memory repository with the
 // package's saveSnapshot helper (blob boundaries chosen by the harness, the
 // zero chunk is the repository's real ZeroChunk()).
@@ -169,7 +172,9 @@ func verifC19Pres() []verifC19Pre {
 		file("empty-older", func(c []byte) ([]byte, bool) { return nil, true }, 0o644, old, false),
 		file("shorter-prefix-older", func(c []byte) ([]byte, bool) { return c[:len(c)/2], len(c) >= 2 }, 0o644, old, false),
 		file("shorter-garbage-older", func(c []byte) ([]byte, bool) { return verifC19Garbage(c, len(c)/2), len(c) >= 2 }, 0o644, old, false),
-		file("longer-correct-prefix-older", func(c []byte) ([]byte, bool) { return append(append([]byte{}, c...), verifC19Garbage(nil, 1000)...), true }, 0o644, old, false),
+		file("longer-correct-prefix-older", func(c []byte) ([]byte, bool) {
+			return append(append([]byte{}, c...), verifC19Garbage(nil, 1000)...), true
+		}, 0o644, old, false),
 		file("longer-garbage-older", longerGarbage, 0o644, old, false),
 		file("longer-garbage-newer", longerGarbage, 0o644, newer, false),
 		file("much-longer-garbage-older", func(c []byte) ([]byte, bool) { return verifC19Garbage(c, len(c)+700*1024), true }, 0o644, old, false),
@@ -394,6 +399,9 @@ func TestVerif_C19(t *testing.T) {
 		}
 		sn, _ := saveSnapshot(t, repo, Snapshot{Nodes: map[string]Node{
 			"d": Dir{ModTime: M, Nodes: map[string]Node{
+				// a twin with the same content that is visited before f (e.g. a copy of the file): in every case
+				// it already exists intact in the target with an older mtime, so it is read and verified first
+				"e": File{DataParts: parts, ModTime: M},
 				"f": File{DataParts: parts, ModTime: M},
 			}},
 		}}, noopGetGenericAttributes)
@@ -480,6 +488,7 @@ func TestVerif_C19(t *testing.T) {
 							must(verifC19WriteFile(filepath.Join(outside, "victim"), []byte("victim content"), 0o644, oldT))
 							must(verifC19WriteFile(filepath.Join(outside, "victimdir", "v"), []byte("victimdir content"), 0o644, oldT))
 							must(verifC19WriteFile(filepath.Join(target, "d", "sibling"), []byte("sibling content"), 0o644, oldT))
+							must(verifC19WriteFile(filepath.Join(target, "d", "e"), want, 0o644, oldT))
 							ok, err := pre.build(fpath, outside, c)
 							must(err)
 							if !ok {
@@ -586,6 +595,9 @@ func TestVerif_C19(t *testing.T) {
 								} else {
 									r.Outcome("untouched|" + modeS)
 								}
+							}
+							if got, err := os.ReadFile(filepath.Join(target, "d", "e")); err != nil || !bytes.Equal(got, want) {
+								r.Violationf(ck, "C19|twin|"+vid, detail, "after successful restore the twin d/e (intact before the restore) does not have the snapshot content (read error %v)", err)
 							}
 							if f := verifC19Finger(outside); f != outsideFinger {
 								detail["before"], detail["after"] = outsideFinger, f
